@@ -1,0 +1,204 @@
+//go:build verif
+
+// Contracts for the partition ring (C15), checked by /verif/govc (comment-only file).
+
+package ring
+
+//@ immutable allowedPartitionStateChanges property C15
+//@
+//@ # generated getters (nil-safe): verified, trivial
+//@ func PartitionDesc.GetState
+//@   property C15
+//@   ensures result == m.State
+//@   pure
+//@ func PartitionDesc.GetStateTimestamp
+//@   property C15
+//@   ensures result == m.StateTimestamp
+//@   pure
+//@ func OwnerDesc.GetUpdatedTimestamp
+//@   property C15
+//@   ensures result == m.UpdatedTimestamp
+//@   pure
+//@ func PartitionDesc.IsPending
+//@   property C15
+//@   ensures result <==> m.State == PartitionPending
+//@   pure
+//@ func PartitionDesc.IsActive
+//@   property C15
+//@   ensures result <==> m.State == PartitionActive
+//@   pure
+//@ func PartitionDesc.IsInactive
+//@   property C15
+//@   ensures result <==> m.State == PartitionInactive
+//@   pure
+//@ func PartitionDesc.IsInactiveSince
+//@   property C15
+//@   ensures result <==> (m.State == PartitionInactive && m.StateTimestamp < unix(since))
+//@   pure
+//@
+//@ pred legalEdge(from PartitionState, to PartitionState) =
+//@      (from == PartitionPending && (to == PartitionActive || to == PartitionInactive)) ||
+//@      (from == PartitionActive && to == PartitionInactive) || (from == PartitionInactive && to == PartitionActive)
+//@
+//@ func isPartitionStateChangeAllowed
+//@   property C15
+//@   ensures result <==> legalEdge(from, to)
+//@   loop 0 invariant forall j int :: 0 <= j && j < $i ==> $coll[j] != to
+//@   pure
+//@
+//@ pred samePartitionsExcept(a map[int32]PartitionDesc, b map[int32]PartitionDesc, id int32) =
+//@      forall j int32 :: j != id ==> (in(j, a) <==> in(j, b)) && (in(j, a) ==> a[j] == b[j])
+//@
+//@ func PartitionRingDesc.UpdatePartitionState
+//@   property C15
+//@   requires !isnil(m.Partitions)
+//@   ensures  absent: !in(id, old(m).Partitions) ==> !r0 && r1 == nil && same(m, old(m))
+//@   ensures  locked: in(id, old(m).Partitions) && old(m).Partitions[id].State != state && old(m).Partitions[id].StateChangeLocked ==>
+//@              !r0 && r1 == ErrPartitionStateChangeLocked && same(m, old(m))
+//@   ensures  noop: !r0 ==> same(m, old(m))
+//@   ensures  changed: r0 ==> r1 == nil && in(id, old(m).Partitions) && !old(m).Partitions[id].StateChangeLocked && old(m).Partitions[id].State != state &&
+//@              in(id, m.Partitions) && m.Partitions[id].State == state && m.Partitions[id].StateTimestamp == unix(now) &&
+//@              m.Partitions[id].Tokens == old(m).Partitions[id].Tokens && m.Partitions[id].Id == old(m).Partitions[id].Id &&
+//@              m.Partitions[id].StateChangeLocked == old(m).Partitions[id].StateChangeLocked &&
+//@              samePartitionsExcept(m.Partitions, old(m).Partitions, id) && same(m.Owners, old(m).Owners)
+//@
+//@ func PartitionRingDesc.UpdatePartitionStateChangeLock
+//@   property C15
+//@   requires !isnil(m.Partitions)
+//@   ensures  noop: !r0 ==> same(m, old(m))
+//@   ensures  changed: r0 ==> in(id, old(m).Partitions) && old(m).Partitions[id].StateChangeLocked != locked &&
+//@              m.Partitions[id].StateChangeLocked == locked && m.Partitions[id].StateChangeLockedTimestamp == unix(now) &&
+//@              m.Partitions[id].State == old(m).Partitions[id].State && m.Partitions[id].StateTimestamp == old(m).Partitions[id].StateTimestamp &&
+//@              samePartitionsExcept(m.Partitions, old(m).Partitions, id) && same(m.Owners, old(m).Owners)
+//@
+//@ func PartitionRingDesc.RemovePartition
+//@   property C15
+//@   ensures !in(id, m.Partitions) && samePartitionsExcept(m.Partitions, old(m).Partitions, id) && same(m.Owners, old(m).Owners)
+//@   ensures isnil(m.Partitions) == isnil(old(m).Partitions)
+//@
+//@ func PartitionRingDesc.HasPartition
+//@   property C15
+//@   ensures result <==> in(id, m.Partitions)
+//@   pure
+//@
+//@ func PartitionRingDesc.RemoveOwner
+//@   property C15
+//@   ensures r0 <==> in(id, old(m).Owners)
+//@   ensures !in(id, m.Owners) && same(m.Partitions, old(m).Partitions)
+//@   ensures forall o string :: o != id ==> (in(o, m.Owners) <==> in(o, old(m).Owners)) && (in(o, m.Owners) ==> m.Owners[o] == old(m).Owners[o])
+//@
+//@ func PartitionRingDesc.PartitionOwnersCount
+//@   property C15
+//@   ensures zero: result == 0 <==> (forall o string :: in(o, m.Owners) ==> m.Owners[o].OwnedPartition != partitionID)
+//@   ensures result >= 0 && result <= len(m.Owners)
+//@   loop 0 invariant 0 <= count && count <= $i
+//@   loop 0 invariant count == 0 <==> (forall o string :: $visited[o] ==> m.Owners[o].OwnedPartition != partitionID)
+//@   pure
+//@
+//@ func PartitionRingDesc.PartitionOwnersCountUpdatedBefore
+//@   property C15
+//@   ensures zero: result == 0 <==> (forall o string :: in(o, m.Owners) ==> !(m.Owners[o].OwnedPartition == partitionID && m.Owners[o].UpdatedTimestamp < unix(before)))
+//@   ensures result >= 0 && result <= len(m.Owners)
+//@   loop 0 invariant 0 <= count && count <= $i && beforeSeconds == unix(before)
+//@   loop 0 invariant count == 0 <==> (forall o string :: $visited[o] ==> !(m.Owners[o].OwnedPartition == partitionID && m.Owners[o].UpdatedTimestamp < unix(before)))
+//@   pure
+//@
+//@ func changePartitionState
+//@   property C15
+//@   requires !isnil(ring.Partitions)
+//@   ensures  noop: !r0 ==> same(ring, old(ring))
+//@   ensures  edge: r0 ==> r1 == nil && in(partitionID, old(ring).Partitions) && legalEdge(old(ring).Partitions[partitionID].State, toState) &&
+//@              !old(ring).Partitions[partitionID].StateChangeLocked && ring.Partitions[partitionID].State == toState &&
+//@              samePartitionsExcept(ring.Partitions, old(ring).Partitions, partitionID) && same(ring.Owners, old(ring).Owners)
+//@   ensures  missing: !in(partitionID, old(ring).Partitions) ==> r1 == ErrPartitionDoesNotExist
+//@   ensures  lockederr: in(partitionID, old(ring).Partitions) && old(ring).Partitions[partitionID].State != toState &&
+//@              legalEdge(old(ring).Partitions[partitionID].State, toState) && old(ring).Partitions[partitionID].StateChangeLocked ==> r1 == ErrPartitionStateChangeLocked
+//@
+//@ func SetPartitionStateChangeLock
+//@   property C15
+//@   requires !isnil(ring.Partitions)
+//@   ensures  noop: !r0 ==> same(ring, old(ring))
+//@   ensures  changed: r0 ==> r1 == nil && ring.Partitions[partitionID].StateChangeLocked == locked &&
+//@              ring.Partitions[partitionID].State == old(ring).Partitions[partitionID].State &&
+//@              samePartitionsExcept(ring.Partitions, old(ring).Partitions, partitionID) && same(ring.Owners, old(ring).Owners)
+//@
+//@ func PartitionRingDesc.AddPartition
+//@   property C15 C16
+//@   requires !isnil(m.Partitions)
+//@   ensures in(id, m.Partitions) && m.Partitions[id].Id == id && m.Partitions[id].State == state && m.Partitions[id].StateTimestamp == unix(now) &&
+//@           !m.Partitions[id].StateChangeLocked && samePartitionsExcept(m.Partitions, old(m).Partitions, id) && same(m.Owners, old(m).Owners)
+//@
+//@ pred sameOwnersExcept(a map[string]OwnerDesc, b map[string]OwnerDesc, id string) =
+//@      forall o string :: o != id ==> (in(o, a) <==> in(o, b)) && (in(o, a) ==> a[o] == b[o])
+//@
+//@ func PartitionRingDesc.AddOrUpdateOwner
+//@   property C15
+//@   requires !isnil(m.Owners)
+//@   ensures  noop: !r0 ==> same(m, old(m))
+//@   ensures  upd: r0 ==> in(id, m.Owners) && m.Owners[id].State == state && m.Owners[id].OwnedPartition == ownedPartition && m.Owners[id].UpdatedTimestamp == unix(now)
+//@   ensures  frame: sameOwnersExcept(m.Owners, old(m).Owners, id) && same(m.Partitions, old(m).Partitions)
+//@
+//@ # ---- lifecycler CAS callbacks: contracts hold for EVERY input ring (serialised by the KV store's CAS, C07) ----
+//@ func PartitionInstanceLifecycler.reconcileOwnedPartition$1
+//@   property C15
+//@   requires !isnil(ring.Partitions)
+//@   ensures  noop: !r0 ==> same(ring, old(ring))
+//@   ensures  promote: r0 ==> r1 == nil && old(ring).Partitions[l.cfg.PartitionID].State == PartitionPending &&
+//@              ring.Partitions[l.cfg.PartitionID].State == PartitionActive && !old(ring).Partitions[l.cfg.PartitionID].StateChangeLocked &&
+//@              samePartitionsExcept(ring.Partitions, old(ring).Partitions, l.cfg.PartitionID) && same(ring.Owners, old(ring).Owners)
+//@   ensures  enough: r0 ==> PartitionRingDesc.PartitionOwnersCountUpdatedBefore(old(ring), l.cfg.PartitionID, mktime(ns(now) - l.cfg.WaitOwnersDurationOnPending)) >= l.cfg.WaitOwnersCountOnPending
+//@
+//@ func PartitionInstanceLifecycler.reconcileOtherPartitions$1
+//@   property C15
+//@   requires !isnil(ring.Partitions)
+//@   ensures  owners: same(ring.Owners, old(ring).Owners)
+//@   ensures  kept: forall p int32 :: in(p, ring.Partitions) ==> in(p, old(ring).Partitions) && ring.Partitions[p] == old(ring).Partitions[p]
+//@   ensures  deleted: forall p int32 :: in(p, old(ring).Partitions) && !in(p, ring.Partitions) ==>
+//@              p != l.cfg.PartitionID && l.cfg.DeleteInactivePartitionAfterDuration > 0 &&
+//@              old(ring).Partitions[p].State == PartitionInactive &&
+//@              old(ring).Partitions[p].StateTimestamp < unix(mktime(ns(now) - l.cfg.DeleteInactivePartitionAfterDuration)) &&
+//@              (forall o string :: in(o, ring.Owners) ==> ring.Owners[o].OwnedPartition != p)
+//@   ensures  flag: !r0 ==> same(ring, old(ring))
+//@   loop 0 invariant same(ring.Owners, old(ring).Owners) && !isnil(ring.Partitions) && (!changed ==> same(ring, old(ring)))
+//@   loop 0 invariant forall p int32 :: in(p, ring.Partitions) ==> in(p, old(ring).Partitions) && ring.Partitions[p] == old(ring).Partitions[p]
+//@   loop 0 invariant forall p int32 :: in(p, old(ring).Partitions) && !in(p, ring.Partitions) ==>
+//@              p != l.cfg.PartitionID && old(ring).Partitions[p].State == PartitionInactive &&
+//@              old(ring).Partitions[p].StateTimestamp < unix(deleteBefore) &&
+//@              (forall o string :: in(o, ring.Owners) ==> ring.Owners[o].OwnedPartition != p)
+//@   loop 0 invariant ns(deleteBefore) == ns(now) - l.cfg.DeleteInactivePartitionAfterDuration
+//@
+//@ func PartitionInstanceLifecycler.partitionOwnerID
+//@   property C15
+//@   modifies nothing
+//@
+//@ func PartitionInstanceLifecycler.createPartitionAndRegisterOwner$1
+//@   property C15
+//@   requires !isnil(ring.Partitions) && !isnil(ring.Owners)
+//@   ensures  pending: !in(l.cfg.PartitionID, old(ring).Partitions) ==> in(l.cfg.PartitionID, ring.Partitions) && ring.Partitions[l.cfg.PartitionID].State == PartitionPending
+//@   ensures  others: samePartitionsExcept(ring.Partitions, old(ring).Partitions, l.cfg.PartitionID)
+//@   ensures  existing: in(l.cfg.PartitionID, old(ring).Partitions) ==> ring.Partitions[l.cfg.PartitionID] == old(ring).Partitions[l.cfg.PartitionID]
+//@
+//@ func PartitionInstanceLifecycler.stopping$1
+//@   property C15
+//@   ensures same(ring.Partitions, old(ring).Partitions)
+//@
+//@ func uniqueZonesFromInstances
+//@   property C15
+//@   requires len(buf) == 0
+//@   ensures  len(result) <= len(instances) && (len(instances) >= 1 ==> len(result) >= 1)
+//@   loop 0 invariant len(buf) <= $i && ($i >= 1 ==> len(buf) >= 1)
+//@
+//@ func PartitionInstanceRing.GetReplicationSetsForOperation
+//@   property C15
+//@   ghost var gnow time.Time = havoc
+//@   ensures  sets: r1 == nil ==> (forall j int :: 0 <= j && j < len(r0) ==>
+//@              len(r0[j].Instances) >= 1 && r0[j].ZoneAwarenessEnabled && 0 <= r0[j].MaxUnavailableZones && r0[j].MaxUnavailableZones < len(r0[j].Instances))
+//@   ensures  healthy: r1 == nil ==> (forall j int :: 0 <= j && j < len(r0) ==> (forall i int :: 0 <= i && i < len(r0[j].Instances) ==>
+//@              InstanceDesc.IsHealthy(r0[j].Instances[i], op, r.heartbeatTimeout, gnow)))
+//@   ensures  count: r1 == nil ==> len(r0) == len(partitionsRingDesc.Partitions)
+//@   loop 0 init gnow := now
+//@   loop 0 invariant len(result) == $i && same(gnow, now)
+//@   loop 0 invariant forall j int :: 0 <= j && j < len(result) ==>
+//@              len(result[j].Instances) >= 1 && result[j].ZoneAwarenessEnabled && 0 <= result[j].MaxUnavailableZones && result[j].MaxUnavailableZones < len(result[j].Instances)
+//@   loop 0 invariant forall j int :: 0 <= j && j < len(result) ==> (forall i int :: 0 <= i && i < len(result[j].Instances) ==> InstanceDesc.IsHealthy(result[j].Instances[i], op, r.heartbeatTimeout, gnow))
+//@   loop 1 invariant forall i int :: 0 <= i && i < len(instances) ==> InstanceDesc.IsHealthy(instances[i], op, r.heartbeatTimeout, gnow)
